@@ -73,45 +73,57 @@ ScalarText(F, S, tk) ==
     ELSE IF tk.k = "num" THEN NumberText(F, S, tk)
     ELSE lit
 
-RECURSIVE FmtVal(_, _, _, _), FmtElems(_, _, _, _, _, _), FmtMembers(_, _, _, _, _)
-\* value starting at token i, written inside d open containers: [out, nx]
-FmtVal(F, S, i, d) ==
-    LET tk == S.toks[i] IN
-    IF tk.k = "[" THEN FmtElems(F, S, i + 1, d + 1, TRUE, <<91>>)
-    ELSE IF tk.k = "{" THEN
-         LET r == FmtMembers(F, S, i + 1, d + 1, <<>>)
-             \* members are ordered by the UTF-16 code units of their names; equal names (possible
+(***************************************************************************)
+(* One pass over the tokens with an explicit stack of unfinished           *)
+(* containers (no recursion: values may be nested 10000 deep).  A frame    *)
+(* collects the texts of its elements, or of its members as [name, text];  *)
+(* when the container closes its text is assembled for depth               *)
+(* d0 + (number of enclosing frames) and handed to the enclosing frame.    *)
+(***************************************************************************)
+ContainerText(F, f, dIn) ==
+    IF f.t = "a"
+    THEN <<91>> \o FoldLeft(LAMBDA acc, j : acc \o ElemLead(F, j = 1, dIn) \o f.items[j],
+                            <<>>, [j \in 1..Len(f.items) |-> j])
+              \o CloseLead(F, f.items = <<>>, dIn) \o <<93>>
+    ELSE LET \* members are ordered by the UTF-16 code units of their names; equal names (possible
              \* only when duplicates are allowed) by the UTF-16 code units of the member text
              ms == IF F.ror
-                   THEN SortSeq(r.ms, LAMBDA x, y :
+                   THEN SortSeq(f.items, LAMBDA x, y :
                           \/ SeqLess(Utf16(x.name), Utf16(y.name))
                           \/ x.name = y.name /\ SeqLess(Utf16(GoDecode(x.text).cps), Utf16(GoDecode(y.text).cps)))
-                   ELSE r.ms
-             body == FoldLeft(LAMBDA acc, j : acc \o ElemLead(F, j = 1, d + 1) \o ms[j].text,
-                              <<>>, [j \in 1..Len(ms) |-> j]) IN
-         [out |-> <<123>> \o body \o CloseLead(F, ms = <<>>, d + 1) \o <<125>>, nx |-> r.nx]
-    ELSE [out |-> ScalarText(F, S, tk), nx |-> i + 1]
+                   ELSE f.items IN
+         <<123>> \o FoldLeft(LAMBDA acc, j : acc \o ElemLead(F, j = 1, dIn) \o ms[j].text,
+                             <<>>, [j \in 1..Len(ms) |-> j])
+                 \o CloseLead(F, ms = <<>>, dIn) \o <<125>>
 
-\* array elements from token i until the closer; acc is the text so far
-FmtElems(F, S, i, dIn, first, acc) ==
-    IF S.toks[i].k = "]"
-    THEN [out |-> acc \o CloseLead(F, first, dIn) \o <<93>>, nx |-> i + 1]
-    ELSE LET v == FmtVal(F, S, i, dIn) IN
-         FmtElems(F, S, v.nx, dIn, FALSE, acc \o ElemLead(F, first, dIn) \o v.out)
+\* a finished value text x arrives at the innermost frame (or is the result)
+PutValue(F, a, x) ==
+    IF a.stack = <<>> THEN [a EXCEPT !.out = x]
+    ELSE LET k == Len(a.stack)  f == a.stack[k] IN
+         IF f.t = "a" THEN [a EXCEPT !.stack[k].items = Append(@, x)]
+         ELSE [a EXCEPT !.stack[k].items = Append(@, [name |-> f.pname, text |-> f.ptext \o ColonLead(F) \o x])]
 
-\* object members from token i until the closer: [ms: seq of [name, text], nx]
-FmtMembers(F, S, i, dIn, ms) ==
-    IF S.toks[i].k = "}" THEN [ms |-> ms, nx |-> i + 1]
-    ELSE LET nm == S.toks[i]
-             v == FmtVal(F, S, i + 1, dIn) IN
-         FmtMembers(F, S, v.nx, dIn,
-                    Append(ms, [name |-> nm.str, text |-> ScalarText(F, S, nm) \o ColonLead(F) \o v.out]))
+FmtStep(F, S, d0, a, tk) ==
+    IF tk.k \in {"[", "{"}
+    THEN [a EXCEPT !.stack = Append(@, [t |-> IF tk.k = "[" THEN "a" ELSE "o", items |-> <<>>,
+                                        pname |-> <<>>, ptext |-> <<>>])]
+    ELSE IF tk.k \in {"]", "}"}
+    THEN LET k == Len(a.stack) IN
+         PutValue(F, [a EXCEPT !.stack = SubSeq(@, 1, k - 1)], ContainerText(F, a.stack[k], d0 + k))
+    ELSE IF tk.k = "name"
+    THEN LET k == Len(a.stack) IN
+         [a EXCEPT !.stack[k].pname = tk.str, !.stack[k].ptext = ScalarText(F, S, tk)]
+    ELSE PutValue(F, a, ScalarText(F, S, tk))
+
+\* rendering of the (single, valid) value whose tokens are S.toks, written inside d0 open containers
+FmtTokens(F, S, d0) ==
+    FoldLeft(LAMBDA a, tk : FmtStep(F, S, d0, a, tk), [stack |-> <<>>, out |-> <<>>], S.toks).out
 
 \* the rendering of the value src (surrounding whitespace allowed) written inside d
 \* open containers; src must be exactly one valid value under (F.ai, F.ad)
 FormatAtP(F, src, d, maxd, proj) ==
     LET s == Finish(Run(Opt(F.ai, F.ad, maxd), src)) IN
-    FmtVal(F, [toks |-> s.toks, src |-> src, proj |-> proj], 1, d).out
+    FmtTokens(F, [toks |-> s.toks, src |-> src, proj |-> proj], d)
 
 FormatAt(F, src, d, maxd) == FormatAtP(F, src, d, maxd, <<>>)
 
